@@ -303,6 +303,8 @@ def run(tier: str, seed: int) -> int:
     traces = random_traces(rng, 120 if not thorough else 1500, steps=8)
     _, rej = validate_traces(chk, traces, site="random-sequences")
     canary_trace(chk, traces, rejected={r["trace"] for r in rej})
+    # extension of the specification beyond the listed property (DESIGN section 7, item 2)
+    run_virtual_tensor(chk, rng, thorough)
     return chk.finish()
 
 
@@ -322,3 +324,75 @@ def replay(path: str) -> int:
     if not ok:
         print(f"VIOLATION property={PID} replay={path}")
     return 0 if ok else 1
+
+
+# ------------------------------------------------------------------------------------------
+# Extension phase (DESIGN section 7, item 2): VirtualTensor
+# ------------------------------------------------------------------------------------------
+def run_virtual_tensor(chk, rng, thorough):
+    from ..impl_virtualtensor import VTImpl
+    INV = ["TypeOK", "RefInv", "UsableInv", "ValueInv", "FrameInv"]
+    dts = {"f32", "f64", "i64", "f16"} if thorough else {"f32", "f64", "i64"}
+    mx = 3 if thorough else 2
+
+    def consts(rule, mx, dts):
+        return dict(MaxObjs=mx, RRecreate=rule, DtSetC=set(dts))
+
+    res = tlc.run("VirtualTensorMC", tlc.cfg_text(constants=consts("guarded", 3, dts), invariants=INV), workers=4, timeout=3000)
+    if res.violated:
+        chk.violation({"clause": "MC:" + ",".join(res.violated), "site": "spec:VirtualTensor"}, {"tlc_tail": res.out[-4000:]})
+    elif not res.ok:
+        raise MachineryFailure(f"VirtualTensorMC did not complete: {res.out[-2000:]}")
+    chk.add_tlc("mc:virtualtensor", res)
+    chk.note(f"mc virtualtensor: {res.distinct} states, {res.generated} transitions, depth {res.depth}, {res.wall:.1f}s")
+    bad = tlc.run("VirtualTensorMC", tlc.cfg_text(constants=consts("by-name", 2, {"f32", "f64"}), invariants=INV), workers=4,
+                  timeout=3000)
+    if "UsableInv" not in bad.violated:
+        raise MachineryFailure(f"rule by-name (finaliser deletes the buffer of a replacing VirtualTensor) not rejected: {bad.violated}")
+    chk.note("mc virtualtensor: rule 'finaliser deletes by name' rejected by TLC (UsableInv)")
+
+    c = consts("guarded", mx, dts)
+    res = tlc.run("VirtualTensorMC", tlc.cfg_text(constants=c, invariants=["Emit"]), workers=1, timeout=3000)
+    if not res.ok:
+        raise MachineryFailure(f"VirtualTensor generation failed: {res.out[-2000:]}")
+    g = graph.Graph.from_lines(res.printed())
+    if len(g.states) != res.distinct:
+        raise MachineryFailure(f"VirtualTensor graph: {len(g.states)} states printed, TLC reports {res.distinct}")
+    chk.add_tlc("gen:virtualtensor", res)
+    make = lambda: VTImpl(mx)  # noqa: E731
+    init_key = graph.canon(make().project())
+    if init_key not in g.states:
+        raise MachineryFailure(f"VirtualTensor: initial implementation state not in graph: {init_key}")
+
+    def on_mismatch(sig, rep):
+        op = rep.get("op") or {}
+        obs = (rep.get("observed") or {}).get("ret") or {}
+        path = rep.get("path") or []
+        sig = dict(sig, site="virtualtensor-" + sig.get("site", ""), raised=obs.get("e"),
+                   recreated=sum(1 for p in path + [op] if isinstance(p, dict) and p.get("a") == "create") > 1)
+        chk.violation(sig, dict(rep, extension="VirtualTensor"))
+
+    import gc
+    gc.collect()
+    gc.freeze()          # the adaptor calls gc.collect() after lifetime operations: keep the graph out of its way
+    try:
+        stats = graph.replay(g, init_key, make, budget=None if thorough else 1500, rng=rng, on_mismatch=on_mismatch,
+                             max_mismatch=20, op_class=lambda op: f"{op.get('a')}:{op.get('via')}:{op.get('mat')}")
+    finally:
+        gc.unfreeze()
+    chk.evaluations += stats.edges
+    for k, o in stats.pairs:
+        chk.nontrivial.add(("virtualtensor", k, o))
+    chk.note(f"replay virtualtensor: {stats.edges} edges of {g.n_edges}, {len(stats.states_visited)}/{len(g.states)} states, "
+             f"mismatches={len(stats.mismatches)}")
+    seen = []
+
+    def deviate(op, ret, st):
+        if ret.get("t") == "val":
+            ret = dict(ret, dt="f16" if ret["dt"] != "f16" else "f32")
+        return ret, st
+    graph.replay(g, init_key, make, budget=300, rng=rng, on_mismatch=lambda s, r: seen.append(s), deviate=deviate,
+                 max_mismatch=200)
+    if not any(s.get("clause") == "RetOK" for s in seen):
+        raise MachineryFailure("canary: a VirtualTensor replay reporting the wrong dtype was not flagged")
+    chk.note(f"canary virtualtensor: deviating replay reported ({len(seen)} mismatches)")
